@@ -65,6 +65,15 @@ func armPanics(p *Program) {
 				if c.Req.Header.Get("X-Panic") != id+":"+phase {
 					return
 				}
+				// (a middleware slice shared by nested groups puts the same handler into a chain twice:
+				// the fault is injected once per request)
+				if rec.Extra == nil {
+					rec.Extra = map[string]any{}
+				}
+				if rec.Extra["panic_fired"] == true {
+					return
+				}
+				rec.Extra["panic_fired"] = true
 				switch c.Req.Header.Get("X-Panic-Pre") {
 				case "status":
 					c.SetStatus(202)
@@ -72,6 +81,8 @@ func armPanics(p *Program) {
 					_, _ = c.Resp.Write([]byte("pre"))
 				case "adderror":
 					c.AddError(errors.New("recorded before panic"))
+				case "abort":
+					c.Abort() // the chain is already aborted when the panic happens
 				}
 				rec.Ev("panic(%s,%s)", id, phase)
 				panic(panicValue(c.Req.Header.Get("X-Panic-Val")))
@@ -157,7 +168,7 @@ func c09Case(t *T) {
 	g := &progGen{maxDepth: 3, dynamic: true}
 	p := GenProgram(r, g)
 	armPanics(p)
-	hookKind := pick(r, []string{"absent", "nothing", "status", "status+body", "echo", "status", "status+body"})
+	hookKind := pick(r, []string{"absent", "nothing", "status", "status+body", "echo", "status", "status+body", "abort-with-status"})
 	usePanicsHandler := hookKind == "absent" && chance(r, 1, 4)
 	onErrorPanics := chance(r, 1, 8)
 	var plan, histDesc []string
@@ -210,6 +221,8 @@ func c09Case(t *T) {
 				case "echo":
 					c.SetStatus(503)
 					_, _ = c.Resp.Write([]byte(fmt.Sprint(v)))
+				case "abort-with-status":
+					c.AbortWithStatus(500, "hook-says-no") // the usual way a hook answers
 				}
 			}
 		}
@@ -245,7 +258,7 @@ func c09Case(t *T) {
 	// the panicking request
 	q := pick(r, reqs)
 	val := pick(r, []string{"string", "error", "int", "struct", "abort"})
-	preAct := pick(r, []string{"", "", "status", "write", "adderror"})
+	preAct := pick(r, []string{"", "", "status", "write", "adderror", "abort"})
 	hdr := map[string]string{"X-Panic-Val": val, "X-Panic-Pre": preAct}
 	var site *MW
 	phase := "pre"
@@ -399,6 +412,8 @@ func c09Case(t *T) {
 		case "echo":
 			m.step(respOp{Kind: "status", Code: 503})
 			m.step(respOp{Kind: "write", Data: fmt.Sprint(want)})
+		case "abort-with-status":
+			m.step(respOp{Kind: "error", Code: 500, Data: "hook-says-no"})
 		}
 		m.commit()
 		if !callsEqual(m.log, rec.Calls) || rec.Body.String() != string(m.body) {
